@@ -49,7 +49,8 @@ PROBES = {
     'C01': ['cell_occupied_in_one_array_only', 'particle_on_cell_face', 'degenerate_extent', 'cross_array_pair',
             'cache_lazy_fill', 'cache_fill_simulated_tid', 'cache_find_all_threads_gt1', 'implicit_context_switch', 'reorder_then_query',
             'empty_array_present', 'coincident_points', 'far_from_origin', 'h_decades', 'refused_too_many_cells',
-            'band_pairs', 'added_particles', 'removed_particles', 'cache_toggled', 'cached_and_uncached_queries_share_output_array', 'nonlocal_tags_present'],
+            'band_pairs', 'added_particles', 'removed_particles', 'cache_toggled', 'cached_and_uncached_queries_share_output_array', 'nonlocal_tags_present',
+            'same_pair_across_update_without_set_context'],
     'C17': ['reorder_with_nonlocal_tags', 'reorder_strided', 'repeated_reorder', 'reorder_then_query', 'reorder_empty_array',
             'solver_reorder_then_query_without_update', 'periodic_domain', 'reorder_with_domain_ghosts',
             'property_added_after_nnps_was_built', 'lb_props_restricted'],
@@ -491,6 +492,7 @@ def execute(sc, prop):
     kinds = []
     use_cache = [bool(sc.get('cache')) and cls != 'dbox']
     first_ctx = [True]
+    last_pair = [None]
 
     def query_round(qi, what):
         qm = qmodes[qi % len(qmodes)] if isinstance(qmodes[qi % len(qmodes)], dict) else {}
@@ -500,7 +502,13 @@ def execute(sc, prop):
         nb = UIntArray()
         pairs = [(s, d) for d in range(narr) for s in range(narr)]
         rng.shuffle(pairs)
+        if ctx == 'implicit' and last_pair[0] in pairs:
+            # ask first for the pair that was asked last before the update: the structure then keeps its context across the update
+            pairs.remove(last_pair[0])
+            pairs.insert(0, last_pair[0])
+            probe('same_pair_across_update_without_set_context')
         for (s, d) in pairs:
+            last_pair[0] = (s, d)
             src, dst = w.particles[s], w.particles[d]
             nd = dst.get_number_of_particles()
             ns = src.get_number_of_particles()
